@@ -99,4 +99,13 @@ CHECKS = {
             dict(name="TestC10Attack", quick=dict(checks=600, shards=6, timeout=900), thorough=dict(checks=12000, shards=12, timeout=3400)),
             dict(name="FuzzC10", quick=dict(skip=True), thorough=dict(fuzz="300s", timeout=700, procs=16)),
         ]),
+    "C09": dict(
+        pkg="c09", level="exploration", helpers=["vserver"],
+        technique="property-based testing (rapid): generated authorized_keys files, offered keys, users, passwords and job configurations against the public-key callback in-process and against a real server over real SSH handshakes; reference predicate for who may log in; secrecy oracle for health sessions",
+        level_text="Generated authorized_keys texts (three key types, options, comments, blank and whitespace lines anywhere, CRLF, missing final newline) and every pairing of service users with passwords and job allow-lists are checked against the rule 'granted iff key listed / health password / job name of the right kind from an allowed address'; granted health sessions are sent read and map commands naming a planted secret, which must never come back.",
+        level_note="Only loopback addresses exist in the sandbox, so the deny side of AllowFrom is exercised with lists that do not contain loopback. 'Well-formed file' = every non-blank, non-comment line is a valid authorized_keys line.",
+        tests=[
+            dict(name="TestC09KeyCallback", quick=dict(checks=5000, timeout=600), thorough=dict(checks=60000, shards=8, timeout=3000)),
+            dict(name="TestC09Handshake", quick=dict(checks=300, timeout=600), thorough=dict(checks=3000, shards=8, timeout=3000)),
+        ]),
 }
